@@ -118,6 +118,7 @@ void run_C07(Ctx &cx) {
     ls.push_back({P29 + 56, 0});
     ls.push_back({P29 - 1, 0});
     ls.push_back({2 * P29 + 17, 4});
+    ls.push_back({8 * P29 + 5, 4}); // 4 GiB + 5: past every 32-bit BYTE counter as well
   } else {
     ls.push_back({P29 + 56 + cx.seed % 7, 4});
   }
